@@ -91,7 +91,7 @@ class EnvironmentDataDescription(ComplexDop):
             **kwargs)
 
     def _build_odxlinks(self) -> Dict[OdxLinkId, Any]:
-        odxlinks = {self.odx_id: self}
+        odxlinks = super()._build_odxlinks()
 
         if not self.env_data_refs:
             for ed in self.env_datas:
@@ -100,6 +100,8 @@ class EnvironmentDataDescription(ComplexDop):
         return odxlinks
 
     def _resolve_odxlinks(self, odxlinks: OdxLinkDatabase) -> None:
+        super()._resolve_odxlinks(odxlinks)
+
         # ODX 2.0 specifies environment data objects here, ODX 2.2
         # uses references
         if self.env_data_refs:
@@ -109,9 +111,12 @@ class EnvironmentDataDescription(ComplexDop):
                 ed._resolve_odxlinks(odxlinks)
 
     def _resolve_snrefs(self, context: SnRefContext) -> None:
+        super()._resolve_snrefs(context)
+
         # ODX 2.0 specifies environment data objects here, ODX 2.2
-        # uses references
-        if self.env_data_refs:
+        # uses references. (In the latter case, the SNREFs of the
+        # environment data objects are resolved by their owner.)
+        if not self.env_data_refs:
             for ed in self.env_datas:
                 ed._resolve_snrefs(context)
 
